@@ -746,6 +746,38 @@ def r6(report, db, F):
                 R, 'scaling:%s' % qn, sd.path, sd.node, sd.qualname,
                 'read applies factor %s%s, send applies %s%s: not inverse'
                 % (mr.coef, mr.syms or '', ms.coef, ms.syms or ''))
+    # the factor itself: FixedPoint(T, n) divides by 2**n for *every* n the
+    # constructor can be given (0 included), and by 2**5 when n is omitted
+    from ..fold import ClassVal, FoldRaise
+    fp = db.get_class(BASIC, 'FixedPoint')
+    integer = ClassVal(db.get_class(BASIC, 'Integer'))
+    init = db.own_method(fp, '__init__')
+    from ..fold import Env
+    badn = []
+    cases = [((integer,), {}, 32)] + \
+        [((integer, k), {}, 2 ** k) for k in range(0, 33)] + \
+        [((integer,), {'fractional_bits': k}, 2 ** k) for k in (0, 1, 12)]
+    for args, kw, want in cases:
+        try:
+            inst = F.instantiate(ClassVal(fp), list(args), dict(kw), fp.node,
+                                 Env(fp.module))
+            got = F.getattr(inst, 'denominator', fp.node, fp.module)
+        except FoldRaise as e:
+            got = 'raises %s' % e.exc_type
+        if got != want:
+            badn.append((args[1:] or kw or 'default', got, want))
+    n += 1
+    if badn:
+        report.violation(
+            R, 'scaling:FixedPoint:denominator', fp.path,
+            init.node if init is not None else fp.node,
+            'FixedPoint.__init__', 'FixedPoint(Integer, %s).denominator '
+            'folds to %r, the format prescribes %r (%d of %d constructor '
+            'cases differ)' % (badn[0][0], badn[0][1], badn[0][2], len(badn),
+                               len(cases)))
+    else:
+        report.ok(R, 'FixedPoint(T, n).denominator = 2**n for n = 0..32, '
+                  '32 by default (%d constructor cases folded)' % len(cases))
     # Pitch: value /= k and value *= k under the same version predicate
     pci = db.get_class(pairs[2][0], 'SoundEffectPacket.Pitch')
     rd = db.own_method(pci, 'read_with_context')
@@ -764,7 +796,7 @@ def r6(report, db, F):
                          sd.node, sd.qualname,
                          'read scales %r but send scales %r (guard, op, '
                          'constant must mirror)' % (ra, sa))
-    report.floor('scaling codec pairs', n, 4)
+    report.floor('scaling codec pairs', n, 5)
 
 
 def sym_of(n):
